@@ -55,6 +55,10 @@ def scan_function(fn: ast.AST, member_name: str, ordering_scope: bool, helpers=(
                 and any(isinstance(a, ast.Constant) and isinstance(a.value, float) for a in n.args) and not any("len(" in u(a) for a in n.args)):
             # a FLOAT bound next to a computed value (integer arithmetic on lengths cannot be NaN)
             out.append(("nan-unsafe-clamp", u(n)[:70], "builtin min / max return their FIRST argument when the comparison with NaN is False: min(1.0, nan) is 1.0 - an undefined value is replaced by the bound"))
+        if isinstance(n, ast.Call) and u(n.func) in ("np.isclose", "np.allclose", "math.isclose"):
+            out.append(("tolerance-comparison", u(n)[:70], "values within the tolerance are taken for equal: exact zeros / equalities decide where a measure is NaN, which measure is reported and which elements tie"))
+        if isinstance(n, ast.Call) and (u(n.func) in ("round", "np.round", "np.around", "np.round_") or (isinstance(n.func, ast.Attribute) and n.func.attr == "round" and not u(n.func).startswith("np."))):
+            out.append(("quantised-value", u(n)[:70], "a measure is reported (and compared) as computed: rounding makes distinct values equal and moves values across thresholds"))
         if isinstance(n, ast.BoolOp) and isinstance(n.op, ast.Or) and len(n.values) == 2:
             from .mirror import swap_ident as _swap
 
@@ -378,6 +382,8 @@ def pad(self, elements):
     block[:, 0] = self._subtotal_column(elements)
     share = self._counts / (self._table_base or 1.0)
     any_difference = any(len(s.subtrahend_idxs) > 0 for s in self._row_subtotals or self._column_subtotals)
+    same = np.isclose(self._weighted, self._unweighted).all()
+    key = round(self._value, 12)
     a = b = [0] * len(elements)
     a[0], c = 1, 2
     b[0] = 2
